@@ -1,7 +1,7 @@
 (* C13 -- The requested dialect is honoured everywhere and never emitted wrongly.  Statements only. *)
 From Coq Require Import List NArith ZArith Bool String Ascii Lia.
 Require Import Base.Common Gen.LexTable Lex.Model Cur.Model Tree.Value Tree.Canon Gen.Schema Gen.Static Gen.Flow Flow.Dialect Flow.Facts
-               Parse.Prim Parse.Model Parse.Entry Expr.Spec Expr.Proofs Print.Model Print.Proofs Stmt.C13Facts.
+               Parse.Prim Parse.Model Parse.Entry Expr.Spec Expr.Proofs Print.Model Print.Proofs Stmt.C13Facts Parse.Dialect.
 Import ListNotations.
 Open Scope string_scope.
 
@@ -37,6 +37,21 @@ Theorem C13_bang_by_dialect : forall d,
   forallb (fun o => mem_str o (unary_operator_set d)) [S "-"; S "+"; S "~"] = true.
 Proof. exact bang_by_dialect. Qed.
 
+(* 3b. ... and that is ALL it means to the parser model (Parse/Dialect.v, a sweep over every parse function): the dialect reaches the parser
+   only through these two operator sets - every call passes it on unchanged and nothing else looks at it - so two dialects with the same
+   sets are parsed identically by every parse function at every depth, and so are their scripts.  With the shipped tables: all dialects but
+   Hive parse alike (they differ in their text pre-pass and their printers only). *)
+Theorem C13_dialect_only_through_operator_sets : forall d d',
+  unary_operator_set d' = unary_operator_set d -> not_operator_set d' = not_operator_set d ->
+  forall fuel f a ts, run fuel f d a ts = run fuel f d' a ts.
+Proof. exact dialect_frame. Qed.
+Theorem C13_scripts_only_through_operator_sets : forall d d', same_sets d d' ->
+  forall n fuel ts acc, statements_loop n fuel d ts acc = statements_loop n fuel d' ts acc.
+Proof. exact same_sets_scripts_alike. Qed.
+Example C13_frame_applies :
+  same_sets D_MYSQL D_DEFAULT /\ same_sets D_ORACLE D_DB2 /\ same_sets D_POSTGRE_SQL D_SQL_SERVER /\ same_sets D_DB2 D_DEFAULT /\ ~ same_sets D_HIVE D_MYSQL.
+Proof. repeat split; try reflexivity. intros [H _]. discriminate H. Qed.
+
 (* ... at depth: inside a bracket inside a function argument inside a CASE arm inside a sub-query, for Hive, `! a = b` and
    `a == b` parse exactly like `NOT a = b` and `a = b`; for DB2 the two-word CURRENT DATE parses like CURRENT_DATE *)
 Theorem C13_nested_examples : nested_examples_ok = true.
@@ -58,3 +73,6 @@ Print Assumptions C13_bang_by_dialect.
 Print Assumptions C13_nested_examples.
 Print Assumptions C13_mod_refused.
 Print Assumptions C13_refusals.
+Print Assumptions C13_dialect_only_through_operator_sets.
+Print Assumptions C13_scripts_only_through_operator_sets.
+Print Assumptions C13_frame_applies.
